@@ -112,6 +112,27 @@ def run(ctx):
                             callee = call_name(par) or ""
                             helper = hm.funcs.get(callee)
                             if helper is not None:
+                                # keys-only uses of a mapping-valued field: sorted(d) / list(d) / set(d) / d.keys() drop the values
+                                hp = helper.args.args[par.args.index(node)].arg if par.args.index(node) < len(helper.args.args) else None
+                                for hr in [x for x in ast.walk(helper) if isinstance(x, ast.Return) and x.value is not None]:
+                                    occ = [x for x in ast.walk(hr.value) if isinstance(x, ast.Name) and x.id == hp]
+                                    if not occ:
+                                        continue
+                                    lossy = []
+                                    for o in occ:
+                                        po = hm.parent.get(o)
+                                        if isinstance(po, ast.Call) and o in po.args and isinstance(po.func, ast.Name) and po.func.id in ("sorted", "list", "set", "tuple", "frozenset", "len"):
+                                            lossy.append(src(po)[:40])
+                                        elif isinstance(po, ast.Attribute) and po.attr == "keys":
+                                            lossy.append(src(po)[:40])
+                                    r1.check(
+                                        len(lossy) < len(occ),
+                                        f"{hm.rel}:{c.name}._calc_hash[{howner.name}]:{f}:keys-only",
+                                        f"`self.{f}` is hashed through `{callee}`, whose `return {src(hr.value)[:70]}` uses the mapping only through {lossy}: iterating a dict yields its keys, so the option "
+                                        f"*values* no longer reach the hash and two {c.name}s that differ only in a value of `{f}` are merged",
+                                        hm.rel,
+                                        hr.lineno,
+                                    )
                                 filt = [n for n in ast.walk(helper) if isinstance(n, (ast.DictComp, ast.ListComp, ast.SetComp, ast.GeneratorExp)) and any(g.ifs for g in n.generators)] + [n for n in ast.walk(helper) if isinstance(n, ast.Call) and isinstance(n.func, ast.Attribute) and n.func.attr in ("pop", "discard", "remove")]
                                 r1.check(
                                     not filt,
